@@ -3,6 +3,7 @@ package main
 import (
 	"fmt"
 	"sort"
+	"strings"
 	"time"
 
 	"verifsim/proto"
@@ -32,7 +33,11 @@ func buildEvidence(prop, tier string, seed int64, plan *propPlan, results []prot
 	var virtualMs, steps int64
 	completed, progressed, cases := 0, 0, 0
 	for _, r := range results {
-		perScenario[r.Scenario+"/"+r.Stratum]++
+		stratum := r.Stratum
+		if i := strings.Index(stratum, ":"); i >= 0 {
+			stratum = stratum[:i]
+		}
+		perScenario[r.Scenario+"/"+stratum]++
 		for k, v := range r.Faults {
 			faults[k] += v
 		}
@@ -104,7 +109,13 @@ func buildEvidence(prop, tier string, seed int64, plan *propPlan, results []prot
 	evals := len(results)
 	distinct := len(nontrivial)
 	if plan.CountCases && cases > 0 {
+		// enumerated cases plus the sampled runs that are not enumerations
 		evals = cases
+		for _, r := range results {
+			if r.Cases == 0 {
+				evals++
+			}
+		}
 	}
 	cov := map[string]any{
 		"evaluations":                         evals,
